@@ -1,13 +1,17 @@
 --------------------------- MODULE Values ---------------------------
 (* The DynamoDB value universe as the specification sees it.
-   A value is [t |-> tag, v |-> payload]:
-     S, B    payload = sequence of byte values (so that order, prefix, substring, size are definable)
-     N       payload = numeral [neg, d, e] (module Decimal gives it meaning)
-     BOOL    payload = BOOLEAN            NULL payload = 0
-     L       payload = sequence of values M    payload = function attribute-name -> value
-     SS, BS  payload = sequence of byte sequences, read as a set
-     NS      payload = sequence of numerals, read as a set modulo numeric equality
-   Tags are always compared before payloads (TLC raises an error on <<1>> = 0).
+   A value is a record with the tag t and ONE payload field whose name depends on the tag:
+     [t |-> "S", s |-> bytes]   [t |-> "B", b |-> bytes]      bytes = sequence of byte values (so that order,
+                                                              prefix, substring and size are definable)
+     [t |-> "N", n |-> numeral] numeral = [neg, d, e]         (module Decimal gives it meaning)
+     [t |-> "BOOL", bool |-> BOOLEAN]   [t |-> "NULL", null |-> 0]
+     [t |-> "L", l |-> sequence of values]   [t |-> "M", m |-> function attribute-name -> value]
+     [t |-> "SS", ss |-> seq of byte sequences]  [t |-> "BS", bs |-> ...]   read as sets
+     [t |-> "NS", ns |-> sequence of numerals]   read as a set modulo numeric equality
+   The payload field differs per tag because TLC raises an error when it compares values of different
+   shapes (<<1>> with a record), and it does compare them when it normalises sets or checks equality of
+   states: records with different field names are unequal without their fields being compared.
+   Pay(a) reads the payload, Mk(t, p) builds a value.
    An item is a function attribute-name -> value; absence is "not in the domain".                     *)
 EXTENDS Integers, Sequences, FiniteSets, TLC, Decimal
 
@@ -15,6 +19,14 @@ Tags == {"S","N","B","BOOL","NULL","L","M","SS","NS","BS"}
 ScalarOrd == {"S","N","B"}
 
 SetOf(s) == { s[i] : i \in DOMAIN s }
+
+Pay(a) == CASE a.t = "S" -> a.s [] a.t = "B" -> a.b [] a.t = "N" -> a.n [] a.t = "BOOL" -> a.bool
+            [] a.t = "L" -> a.l [] a.t = "M" -> a.m [] a.t = "SS" -> a.ss [] a.t = "NS" -> a.ns
+            [] a.t = "BS" -> a.bs [] OTHER -> 0
+Mk(t, p) == CASE t = "S" -> [t |-> "S", s |-> p] [] t = "B" -> [t |-> "B", b |-> p] [] t = "N" -> [t |-> "N", n |-> p]
+              [] t = "BOOL" -> [t |-> "BOOL", bool |-> p] [] t = "L" -> [t |-> "L", l |-> p] [] t = "M" -> [t |-> "M", m |-> p]
+              [] t = "SS" -> [t |-> "SS", ss |-> p] [] t = "NS" -> [t |-> "NS", ns |-> p] [] t = "BS" -> [t |-> "BS", bs |-> p]
+              [] OTHER -> [t |-> "NULL", null |-> 0]
 
 RECURSIVE SeqLess(_,_)
 SeqLess(a, b) == IF a = <<>> THEN b # <<>>
@@ -31,48 +43,48 @@ NumSetSub(a, b) == \A i \in DOMAIN a : \E j \in DOMAIN b : DEq(a[i], b[j])
 RECURSIVE SameValue(_,_)
 SameValue(a, b) ==
   /\ a.t = b.t
-  /\ CASE a.t \in {"S","B"}   -> a.v = b.v
-       [] a.t = "N"           -> DEq(a.v, b.v)
-       [] a.t = "BOOL"        -> a.v = b.v
+  /\ CASE a.t \in {"S","B"}   -> Pay(a) = Pay(b)
+       [] a.t = "N"           -> DEq(a.n, b.n)
+       [] a.t = "BOOL"        -> a.bool = b.bool
        [] a.t = "NULL"        -> TRUE
-       [] a.t = "L"           -> /\ Len(a.v) = Len(b.v)
-                                 /\ \A i \in DOMAIN a.v : SameValue(a.v[i], b.v[i])
-       [] a.t = "M"           -> /\ DOMAIN a.v = DOMAIN b.v
-                                 /\ \A k \in DOMAIN a.v : SameValue(a.v[k], b.v[k])
-       [] a.t \in {"SS","BS"} -> SetOf(a.v) = SetOf(b.v)
-       [] a.t = "NS"          -> NumSetSub(a.v, b.v) /\ NumSetSub(b.v, a.v)
+       [] a.t = "L"           -> /\ Len(a.l) = Len(b.l)
+                                 /\ \A i \in DOMAIN a.l : SameValue(a.l[i], b.l[i])
+       [] a.t = "M"           -> /\ DOMAIN a.m = DOMAIN b.m
+                                 /\ \A k \in DOMAIN a.m : SameValue(a.m[k], b.m[k])
+       [] a.t \in {"SS","BS"} -> SetOf(Pay(a)) = SetOf(Pay(b))
+       [] a.t = "NS"          -> NumSetSub(a.ns, b.ns) /\ NumSetSub(b.ns, a.ns)
        [] OTHER               -> FALSE
 
 SameItem(a, b) == /\ DOMAIN a = DOMAIN b
                   /\ \A k \in DOMAIN a : SameValue(a[k], b[k])
 
 \* order inside one scalar type; callers guarantee a.t = b.t \in ScalarOrd
-VLess(a, b) == IF a.t = "N" THEN DLess(a.v, b.v) ELSE SeqLess(a.v, b.v)
-VLeq(a, b)  == IF a.t = "N" THEN DLeq(a.v, b.v)  ELSE SeqLeq(a.v, b.v)
+VLess(a, b) == IF a.t = "N" THEN DLess(a.n, b.n) ELSE SeqLess(Pay(a), Pay(b))
+VLeq(a, b)  == IF a.t = "N" THEN DLeq(a.n, b.n)  ELSE SeqLeq(Pay(a), Pay(b))
 
 \* well-formedness of a value (what DynamoDB accepts): sets non-empty and without duplicates,
 \* numbers within range
 RECURSIVE ValidValue(_)
 ValidValue(a) ==
-  CASE a.t = "N"  -> DValid(a.v)
-    [] a.t = "L"  -> \A i \in DOMAIN a.v : ValidValue(a.v[i])
-    [] a.t = "M"  -> \A k \in DOMAIN a.v : ValidValue(a.v[k])
-    [] a.t \in {"SS","BS"} -> a.v # <<>> /\ Cardinality(SetOf(a.v)) = Len(a.v)
-    [] a.t = "NS" -> /\ a.v # <<>>
-                     /\ \A i, j \in DOMAIN a.v : i # j => ~DEq(a.v[i], a.v[j])
-                     /\ \A i \in DOMAIN a.v : DValid(a.v[i])
+  CASE a.t = "N"  -> DValid(a.n)
+    [] a.t = "L"  -> \A i \in DOMAIN a.l : ValidValue(a.l[i])
+    [] a.t = "M"  -> \A k \in DOMAIN a.m : ValidValue(a.m[k])
+    [] a.t \in {"SS","BS"} -> Pay(a) # <<>> /\ Cardinality(SetOf(Pay(a))) = Len(Pay(a))
+    [] a.t = "NS" -> /\ a.ns # <<>>
+                     /\ \A i, j \in DOMAIN a.ns : i # j => ~DEq(a.ns[i], a.ns[j])
+                     /\ \A i \in DOMAIN a.ns : DValid(a.ns[i])
     [] OTHER      -> TRUE
 
 \* number of elements / bytes, as size() defines it
-VSize(a) == CASE a.t \in {"S","B","L","SS","NS","BS"} -> Len(a.v)
-              [] a.t = "M" -> Cardinality(DOMAIN a.v)
+VSize(a) == CASE a.t \in {"S","B","L","SS","NS","BS"} -> Len(Pay(a))
+              [] a.t = "M" -> Cardinality(DOMAIN a.m)
               [] OTHER -> 0
 
 \* constructors used by the bounded models
-Str(bytes) == [t |-> "S", v |-> bytes]
-Bin(bytes) == [t |-> "B", v |-> bytes]
-Num(n)     == [t |-> "N", v |-> IF n < 0 THEN [neg |-> TRUE, d |-> NatDigits(-n), e |-> 0]
-                                         ELSE [neg |-> FALSE, d |-> NatDigits(n), e |-> 0]]
-Bool(b)    == [t |-> "BOOL", v |-> b]
-NullV      == [t |-> "NULL", v |-> 0]
+Str(bytes) == [t |-> "S", s |-> bytes]
+Bin(bytes) == [t |-> "B", b |-> bytes]
+Num(k)     == [t |-> "N", n |-> IF k < 0 THEN [neg |-> TRUE, d |-> NatDigits(-k), e |-> 0]
+                                         ELSE [neg |-> FALSE, d |-> NatDigits(k), e |-> 0]]
+Bool(b)    == [t |-> "BOOL", bool |-> b]
+NullV      == [t |-> "NULL", null |-> 0]
 =============================================================================
